@@ -680,11 +680,11 @@ void ReferenceSimulator::powerOn()
 			rs.resetHigh = !rs.resetHigh;
 			for (auto &dom : rstSource.domains)
 				for (auto &cn : dom->clockedNodes)
-					cn.changeReset(m_callbackDispatcher, m_dataState, !rs.resetHigh, m_performanceCounters);
+					cn.changeReset(m_callbackDispatcher, m_dataState, rs.resetHigh, m_performanceCounters);
 
 			{
 				auto perfHandle = m_performanceCounters.processOther(SimulatorPerformanceCounters::Other::EVENT_CALLBACKS);
-				m_callbackDispatcher.onReset(clock, !rs.resetHigh);
+				m_callbackDispatcher.onReset(clock, rs.resetHigh);
 			}
 		} else {
 			// Schedule disabling
